@@ -74,6 +74,13 @@ def install(reg):
         return VInt(days.t * 86400)
 
     E["datetime.timedelta"] = VNative(timedelta, "datetime.timedelta")
+    def to_thread(it, a, k):
+        # asyncio.to_thread(f, *args, **kw): runs f in a worker thread and awaits the result;
+        # sequentially that is f(*args, **kw) (interleavings are C05's subject)
+        return it.call(a[0], list(a[1:]), k)
+
+    E["asyncio.to_thread"] = VNative(to_thread, "asyncio.to_thread")
+    reg.const_overrides["xandikos.web.to_thread"] = lambda it: VNative(to_thread, "to_thread")
     E["errno.ENOSPC"] = VInt(28)
     E["stat.S_IFREG"] = VInt(0o100000)
     E["os.environ"] = lambda it: it.fresh_value("dict[str,str]", "os.environ")
